@@ -1184,7 +1184,16 @@ func c03ExpectedIDEntry(c *Ctx, entry, makeSyncer *ssa.Function) {
 			if cs.In.Common().StaticCallee() != makeSyncer || cs.Fn != f.SSA {
 				continue
 			}
-			if len(c.Calls(f.SSA, Invoke("dagsync.Syncer.GetHead"))) == 0 {
+			qh := len(c.Calls(f.SSA, Invoke("dagsync.Syncer.GetHead"))) > 0
+			if sites, known := c.staticCallSites(f.SSA); !qh && known {
+				// (a preparation helper shared by the entry points: one of its callers queries the head)
+				for _, st := range sites {
+					if len(c.Calls(topFunc(st.Parent()), Invoke("dagsync.Syncer.GetHead"))) > 0 {
+						qh = true
+					}
+				}
+			}
+			if !qh {
 				continue // only callers that query the head need the expected ID
 			}
 			getHeadCallers++
